@@ -329,11 +329,11 @@ func (w *World) startServer(o *OptSpec, att *AttachSpec) {
 	})
 	srv.On("flush", func(a ...any) {
 		sock := a[0].(engine.Socket)
-		w.recx(Ev{Sess: w.aliasOf(sock), Kind: "srv-flush", P: packetStrings(a[1])})
+		w.recx(Ev{Sess: w.aliasOf(sock), Kind: "srv-flush", P: packetStrings(a[1]), St: sockState(sock)})
 	})
 	srv.On("drain", func(a ...any) {
 		sock := a[0].(engine.Socket)
-		w.recx(Ev{Sess: w.aliasOf(sock), Kind: "srv-drain"})
+		w.recx(Ev{Sess: w.aliasOf(sock), Kind: "srv-drain", St: sockState(sock)})
 	})
 }
 
